@@ -13,7 +13,14 @@ META = {
             "2^63 and 2^64-1); check points with queries built from all "
             "critical coordinates +-1 (points, ranges with steps 1,2,3,7, "
             "empty and reversed ranges) and a complete point sweep at the "
-            "end. Non-trivial = every history; distinct = hash of the "
+            "end; per-history lookup schedule dense/sparse/rare/end-only; "
+            "12% of steps are bursts aimed at one container (several "
+            "index-affecting edits, then members added) or toggles (the "
+            "same edit repeated, remove/re-add/remove); new members copy a "
+            "sibling's coordinates 30% of the time; 8% of histories use a "
+            "'medium' regime (26-60 intervals in one section, 34-90 blocks "
+            "in one interval), thorough adds a 'large' one (100-900 blocks). "
+            "Non-trivial = every history; distinct = hash of the "
             "operation list.",
     "reach": {"oracle_comparisons": 200000, "nonempty_expectations": 20000,
               "check_points": 2000, "edit_then_lookup:blk_off": 200,
